@@ -249,7 +249,7 @@ pub struct CrossCase {
 }
 
 fn cross_strategy(t: Tier) -> impl Strategy<Value = CrossCase> {
-    let deep_w = t.pick(1u32, 3u32);
+    let deep_w = t.pick(4u32, 4u32);
     (bal_sel(), bal_sel(), proptest::collection::vec(amt_sel(), 0..3), any::<u64>(), prop_oneof![8 => Just(false), deep_w => Just(true)])
         .prop_map(|(cb, mb, pays, seed, deep)| CrossCase { cb, mb, pays, seed, deep })
 }
